@@ -596,3 +596,42 @@ def _looks_int(t):
 
 KNOWN_F10B = live_finding("F10b")
 BOUNDED = [resolve_pointer_rfc6901]
+
+
+def expression_literals_and_embeddings(tier, seed):
+    """Bounded native enumeration: runtime-expression strings built from literal pieces (including '#', '.', '/', ':', '%', digits) and embedded `{$request.query.id}` /
+    bare `$request.query.id` references, evaluated on a fixed (case, response): a constant denotes itself, an embedded expression is replaced by its value IN PLACE and every
+    other character of the string is kept - no piece is dropped or invented. Strings the parser rejects (RuntimeExpressionError) are schema errors and count as held."""
+    import itertools
+    from types import SimpleNamespace
+    from schemathesis.specs.openapi.expressions import evaluate
+    from schemathesis.specs.openapi.expressions.errors import RuntimeExpressionError
+
+    out = SimpleNamespace(case=SimpleNamespace(operation=SimpleNamespace(method="get"), path_parameters={"id": "p1"}, query={"id": "q7"}, headers={}, body={"a": 1}),
+                          response=SimpleNamespace(status_code=201, headers={"location": ["/items/9"]}, json=lambda: {"a": 1}))
+    literals = ["a", "#", "#tag", ".", "/", ":", "%", "7", "x#1", "-", " "]
+    refs = [("{$request.query.id}", "q7"), ("{$request.path.id}", "p1"), ("{$statusCode}", "201"), ("{$method}", "GET")]
+    L = 3 if tier == "quick" else 4
+    n = 0
+    viol = []
+    pieces = [(t, t) for t in literals] + refs
+    for k in range(1, L + 1):
+        for combo in itertools.product(pieces, repeat=k):
+            expr = "".join(t for t, _ in combo)
+            want = "".join(v for _, v in combo)
+            n += 1
+            try:
+                got = evaluate(expr, out)
+            except RuntimeExpressionError:
+                continue
+            except Exception as exc:  # noqa: BLE001
+                if len(viol) < 3:
+                    viol.append({"expression": expr, "problem": f"raised {type(exc).__name__}: {exc}"[:160]})
+                continue
+            if got != want and len(viol) < 3:
+                viol.append({"expression": expr, "got": repr(got), "want": repr(want)})
+    return {"name": "expression_literals_and_embeddings", "bound": f"concatenations of up to {L} pieces out of {len(literals)} literals and {len(refs)} embedded references", "evaluations": n,
+            "exhaustive": True, "violations": viol}
+
+
+BOUNDED = list(BOUNDED) + [expression_literals_and_embeddings]
